@@ -1213,3 +1213,72 @@ def _leaves_calls(b, op, depth=5):
             for a in o.site.args:
                 out += _leaves_calls(b, a, depth - 1)
     return out
+
+
+# ------------------------------------------------------------------------------------------- MAN-2 the strict reader does not skip a fragment without a start
+READ_RECORD = "logs::LogReader::read_record"
+
+
+def man2_strict_reader_reports_orphan_fragments(P, R, L, rule="MAN-2"):
+    """A Middle / Last fragment that does not continue a record is something no writer produces (not even one that dies between
+    two fragments): the start of its record was damaged - e.g. the type byte of a Full record, which the fragment checksum
+    does not cover (D11), flipped into Middle.  The write-ahead log skips it as documented; the reader used for the
+    manifest (`report_damaged_records`) must not: from the `not assembling a record` edge of the Middle and Last arms the
+    next physical read is reachable only over the FALSE edge of the reader's strict-mode flag (D24: a one-bit flip in the
+    manifest dropped a version edit without any error and the healthy table it named was garbage-collected)."""
+    b = P.body(READ_RECORD)
+    if b is None:
+        return R.missing_anchor(rule, READ_RECORD)
+    R.analysed(b)
+    enums = P.facts.get("enums", {})
+    d = {v: int(x) for (v, x) in enums.get("logs::BlockType", [])}
+    phys = [c for c in b.calls() if c.name == READ_PHYS and not b.is_cleanup(c.bb)]
+    if "Middle" not in d or "Last" not in d or not phys:
+        return R.check(rule, READ_RECORD + "|shape", False, where(b), "BlockType discriminants and the physical read are known", "%s, %d reads" % (sorted(d), len(phys)))
+    arms = {}
+    for bb in range(b.n):
+        for st in b.blocks[bb]["stmts"]:
+            if st["k"] == "assign" and st["rv"]["k"] == "discr" and not st["pl"]["p"] and not b.is_cleanup(bb) and \
+                    any(isinstance(e, dict) and e.get("n") == "block_type" for e in st["rv"]["pl"]["p"]):
+                for sb in _switches_on_local(b, st["pl"]["l"]):
+                    for nm in ("Middle", "Last"):
+                        t = switch_target(b.term(sb), d[nm])
+                        if t is not None:
+                            arms[nm] = t
+    mode_false, mode_true = [], []
+    for bb in range(b.n):
+        t = b.term(bb)
+        if b.is_cleanup(bb) or t["k"] != "switch" or t["discr"].get("k") not in ("copy", "move"):
+            continue
+        if b.local_ty(t["discr"]["pl"]["l"]) == "bool" and any(o.kind == "param" and o.name == 1 and o.path for o in origins(b, t["discr"])):
+            z = switch_target(t, 0)
+            mode_false.append((bb, z))
+            mode_true += [(bb, x) for x in b.succ(bb) if x != z and not b.is_cleanup(x)]
+    bad, n = [], 0
+    flags = b.flag_locals() if hasattr(b, "flag_locals") else set()
+    for nm, start in sorted(arms.items()):
+        # the `are we assembling a record` test of this arm: the first switch on a bool LOCAL reachable from the arm
+        seen, todo, orphan = set(), [start], []
+        while todo:
+            x = todo.pop(0)
+            if x in seen or b.is_cleanup(x):
+                continue
+            seen.add(x)
+            t = b.term(x)
+            if t["k"] == "switch" and t["discr"].get("k") in ("copy", "move") and b.local_ty(t["discr"]["pl"]["l"]) == "bool" and \
+                    not any(o.kind == "param" for o in origins(b, t["discr"])):
+                orphan.append(switch_target(t, 0))
+                continue
+            if any(c.bb == x for c in phys):
+                continue
+            todo += b.succ(x)
+        n += len(orphan)
+        if not orphan:
+            bad.append("%s arm: no test of the assembling flag found" % nm)
+        for o in orphan:
+            for c in phys:
+                if c.bb in b.reachable(o) and not b.must_pass(c.bb, through_edges=mode_false, start=o):
+                    bad.append("%s without a start: the next fragment is read without consulting the strict-mode flag" % nm)
+    R.check(rule, READ_RECORD + "|orphan-fragment-is-damage-in-strict-mode", len(arms) == 2 and bool(mode_false) and not bad, where(b),
+            "from the `not assembling` edge of the Middle / Last arms the next read_physical_record is reachable only over the false edge of the strict-mode flag",
+            "; ".join(sorted(set(bad))) or "arms %s, orphan edges %d, strict-mode tests %d" % (sorted(arms), n, len(mode_false)))
